@@ -44,6 +44,12 @@ elab "#svdeps " ids:ident* : command => do
       let gen := s.toList.filter fun x => (`SvModel.Gen).isPrefixOf x
       let gen := gen.filter fun x => !(x.toString.splitOn "match_").length > 1 && !(x.toString.splitOn "._").length > 1
       logInfo m!"SVDEPS {n} := {gen}"
+      -- the hand-written model functions (Prim / Ops / Api: SvModel.<name> with a lower-case first letter) the theorem is about
+      let ops := s.toList.filter fun x =>
+        match x with
+        | .str (.str .anonymous "SvModel") nm => nm.front.isLower
+        | _ => false
+      logInfo m!"SVOPS {n} := {ops}"
 '''
 
 
@@ -62,6 +68,9 @@ def main():
     deps = {}
     for m in re.finditer(r'SVDEPS (\S+) := \[([^\]]*)\]', out):
         deps[m.group(1)] = sorted(x.strip().replace('SvModel.Gen.', '') for x in m.group(2).split(',') if x.strip())
+    ops = {}
+    for m in re.finditer(r'SVOPS (\S+) := \[([^\]]*)\]', out):
+        ops[m.group(1)] = sorted(x.strip().replace('SvModel.', '') for x in m.group(2).split(',') if x.strip())
     missing = re.findall(r'SVDEPS (\S+) MISSING', out)
     if missing or p.returncode != 0 or len(deps) != len(thms):
         print(p.stdout[-3000:])
@@ -70,7 +79,9 @@ def main():
     res = {}
     for pid, P in M.items():
         per = {t: deps[t] for t in P['theorems']}
-        res[pid] = dict(gen=sorted(set(g for t in P['theorems'] for g in deps[t])), per_theorem=per)
+        res[pid] = dict(gen=sorted(set(g for t in P['theorems'] for g in deps[t])), per_theorem=per,
+                        ops=sorted(set(o for t in P['theorems'] for o in ops.get(t, []))),
+                        ops_per_theorem={t: ops.get(t, []) for t in P['theorems']})
     json.dump(res, open(os.path.join(VERIF, 'properties.deps.json'), 'w'), indent=1, sort_keys=True)
     for pid in sorted(res):
         print(pid, len(res[pid]['gen']), 'generated definitions')
